@@ -18,7 +18,8 @@ func init() {
 		Gen:   genC14,
 		Rule: "a target coroutine (generator shape fixed / echo / accumulate) performing exactly as many YieldRefs as the 1..8 callers issue YieldFrom requests (plus one for StartWithVal), callers are started coroutines or DoNotation effects, " +
 			"optionally mixed with YieldFromIO over a MonadIO observed on a handler; oracles over the logs of both sides: every request taken exactly once, its caller gets the value yielded by the YieldRef that took it, " +
-			"per-caller order, StartWithVal value reaches the first YieldRef, DoNotation/YieldFromIO results, IsStarted/IsDone, nobody left blocked; non-trivial = >=2 callers with requests in flight at once; distinct = distinct context-switch signature",
+			"per-caller order, StartWithVal value reaches the first YieldRef, DoNotation/YieldFromIO results, IsStarted/IsDone, nobody left blocked; non-trivial = >=2 callers with requests in flight at once; distinct = distinct context-switch signature" +
+			" Flavours: crowd of callers with a late start, delegating target, redundant Start/StartWithVal, YieldFromIO over sibling compositions and with preset SubscribeOn, YieldFromIO on a finished coroutine, epilogue with a second generator started with a value.",
 		Real: []string{"fpgo.CorDef (Start, StartWithVal, YieldRef, YieldFrom, YieldFromIO, DoNotation, close)", "fpgo.MonadIODef", "fpgo.HandlerDef"},
 		Stub: []string{"goroutine scheduler", "coroutine effects (harness closures)"},
 	})
